@@ -9,6 +9,9 @@
 #include "ref_format.h"
 #include "gen_text.h"
 #include <complex>
+#include <sstream>
+#include <string_theory/iostream>
+#include <string_theory/stdio>
 #include <climits>
 
 using vrt::Rng;
@@ -85,6 +88,61 @@ static Result run_format(int shape, const Values &v, const char *fmt, int mode)
     return r;
 }
 
+// The same format call through the incremental sinks: ST::printf into a memory FILE*, ST::writef into narrow and wide
+// string streams.  Content is C17's subject; here only totality and memory safety: the outcome must be in the accepted
+// set and ASan/UBSan watch the sinks' own padding / chunking loops.
+template <typename F>
+static Result run_sink(F &&f)
+{
+    Result r;
+    vrt::evals();
+    vrt::st().assert_throws = true;
+    try {
+        f();
+        r.kind = OUT;
+    } catch (const vrt::assertion_reached &a) {
+        if (a.message == CONTRACT_MSG) r.kind = CONTRACT;
+        else { r.kind = OTHER; r.what = "assertion: " + a.message + " @" + a.file; }
+    } catch (const ST::unicode_error &e) { r.kind = UNICODE_ERROR; r.what = e.what();
+    } catch (const ST::bad_format &e) { r.kind = BAD_FORMAT; r.what = e.what();
+    } catch (const std::out_of_range &e) { r.kind = OUT_OF_RANGE; r.what = e.what();
+    } catch (const std::invalid_argument &e) { r.kind = INVALID_ARGUMENT; r.what = e.what();
+    } catch (const std::exception &e) { r.kind = OTHER; r.what = vrt::demangle(typeid(e).name()) + ": " + e.what(); }
+    vrt::st().assert_throws = false;
+    return r;
+}
+
+static void sinks_case(int shape, const Values &v, const char *fmt, const std::string &ctx, Kind format_kind)
+{
+    Result rs[5];
+    {
+        char *mem = nullptr;
+        size_t msz = 0;
+        FILE *fp = open_memstream(&mem, &msz);
+        rs[0] = run_sink([&] { call_any(shape, v, fmt, [&](const char *f, auto &&...a) { ST::printf(fp, f, a...); }); });
+        fclose(fp);
+        free(mem);
+    }
+    { std::ostringstream os; rs[1] = run_sink([&] { call_any(shape, v, fmt, [&](const char *f, auto &&...a) { ST::writef(os, f, a...); }); }); }
+    { std::wostringstream os; rs[2] = run_sink([&] { call_any(shape, v, fmt, [&](const char *f, auto &&...a) { ST::writef(os, f, a...); }); }); }
+    { std::basic_ostringstream<char16_t> os; rs[3] = run_sink([&] { call_any(shape, v, fmt, [&](const char *f, auto &&...a) { ST::writef(os, f, a...); }); }); }
+    { std::basic_ostringstream<char32_t> os; rs[4] = run_sink([&] { call_any(shape, v, fmt, [&](const char *f, auto &&...a) { ST::writef(os, f, a...); }); }); }
+    static const char *const names[] = {"printf", "writef<char>", "writef<wchar_t>", "writef<char16_t>", "writef<char32_t>"};
+    for (int i = 0; i < 5; ++i) {
+        if (rs[i].kind == OTHER)
+            vrt::violation(sfmt("C10:%s:foreign-outcome:%s", names[i], rs[i].what.substr(0, 80).c_str()), ctx);
+        if (rs[i].kind == INVALID_ARGUMENT)
+            vrt::violation(sfmt("C10:%s:invalid_argument-for-non-null-format", names[i]), ctx);
+        // bad_format / out_of_range / the contract stop depend on the format string and the argument list alone
+        // (a wide sink transcodes chunk by chunk and may meet text that is not valid UTF-8 before the structural error)
+        if (i >= 2 && rs[i].kind == UNICODE_ERROR) { vrt::count("sinks.wide_sink_rejected_a_chunk"); continue; }
+        const bool structural = format_kind == BAD_FORMAT || format_kind == OUT_OF_RANGE || format_kind == CONTRACT;
+        if ((structural && rs[i].kind != format_kind) || (!structural && (rs[i].kind == BAD_FORMAT || rs[i].kind == OUT_OF_RANGE || rs[i].kind == CONTRACT)))
+            vrt::violation(sfmt("C10:%s:outcome-differs-from-format", names[i]), sfmt("%s ST::format: %s, %s: %s %s", ctx.c_str(), kname(format_kind), names[i], kname(rs[i].kind), rs[i].what.c_str()));
+    }
+    vrt::count("sinks.cases");
+}
+
 // Widths / precisions that mean hundreds of kilobytes to gigabytes of output are a resource question, not a
 // parser one (stated bound, DESIGN 6.8): such format strings are skipped.  Which number is a width or precision is
 // decided by the *documented* grammar (literal text with {{ }} escapes; inside a field: '_' takes the next character
@@ -128,6 +186,7 @@ static bool resource_heavy(const S &f)
     }
 }
 
+static bool g_sinks_sampled = false;
 static void format_case(const S &fmt, int shape, const Values &v, bool bounded = true)
 {
     if (bounded && resource_heavy(fmt)) { vrt::count("skipped.resource_heavy_width"); return; }
@@ -162,6 +221,8 @@ static void format_case(const S &fmt, int shape, const Values &v, bool bounded =
             if (r[m].kind != a.kind)
                 vrt::violation("C10:outcome-depends-on-validation-mode", sfmt("%s assume_valid: %s, mode %d: %s", ctx.c_str(), kname(a.kind), m, kname(r[m].kind)));
     }
+    // (in the exhaustive grammar sweep the sinks get every third format string; everywhere else all of them)
+    if (a.kind != OTHER && (!g_sinks_sampled || vrt::fnv1a(fmt.data(), fmt.size(), 7) % 3 == 0)) sinks_case(shape, v, f.data(), ctx, a.kind);
     vrt::count(S("outcome.") + kname(a.kind));
     vrt::distinct(vrt::fnv1a(fmt.data(), fmt.size(), static_cast<uint64_t>(shape) + 101));
 }
@@ -183,6 +244,7 @@ static void body()
     vrt::require("null_format.calls", 8);
     vrt::require("cut.cases", 1000);
     vrt::require("wrapping_numbers.cases", 100);
+    vrt::require("sinks.cases", 10000);
 
     // (a) grammar-directed: every string over the specifier alphabet up to length L
     S alpha = "{}_.&019+- xcf#<>d";
@@ -192,6 +254,7 @@ static void body()
     vrt::note(sfmt("all %llu strings of length <= %zu over the alphabet \"{}_.&019+- xcf#<>d\\x80\" as format strings x 7 argument lists x 4 validation selectors",
                    static_cast<unsigned long long>(n), L));
     vrt::phase("grammar_exhaustive", n, [&](uint64_t i, Rng &r) {
+        g_sinks_sampled = true;
         S fmt;
         gen::nth_string(i, alpha, L, fmt);
         Values v;
@@ -203,6 +266,7 @@ static void body()
 
     // (b) valid fields cut at every position, (c) mutated
     vrt::phase("cut_and_mutate", vrt::tier_count(40000, 2500000), [&](uint64_t, Rng &r) {
+        g_sinks_sampled = false;
         Values v;
         random_values(r, v);
         int shape = random_shape(r);
